@@ -164,7 +164,11 @@ Fixpoint node_ok_g (l : xlang) (o : opts) (parent : pinfo) (cur : option trow) (
        | [] => true
        | x :: r => node_ok_g l o (pinfo_below parent nm) cur x && go None r
        end) (cur_of nm) ch
-  | Text s => chars_ok o s && negb (tag_is_binary (text_tag (mk_est 0 false false cur) parent))
+  | Text s =>
+    (* content of a binary-flagged element: arbitrary octets (rendered as base64); otherwise XML characters *)
+    if tag_is_binary (text_tag (mk_est 0 false false cur) parent)
+    then forallb (fun c => c <? 256) s && negb (tag_is_type cur)
+    else chars_ok o s
   | CData ch => match ch with [] => true | [Text t] => cdata_ok t | _ => false end
   | Pi => false
   | SubTree sl roots =>
@@ -305,6 +309,32 @@ Proof.
   intros H. apply cstr_nonzero. rewrite forallb_forall in H. apply Forall_forall. intros x Hx E. subst.
   specialize (H 0 Hx). discriminate.
 Qed.
+
+(* base64 text is made of XML characters *)
+Definition b64_safe (c : N) : bool := is_xml_byte c && negb (c =? 13).
+Lemma basis_safe_sweep : forallb (fun i => b64_safe (basis i)) (Bits.N_range 64) = true.
+Proof. vm_compute. reflexivity. Qed.
+
+Lemma b64_chars_ok o bs e : forallb (fun c => c <? 256) bs = true -> b64_enc bs = Some e -> chars_ok o e = true.
+Proof.
+  intros H E. assert (HF : Forall (fun b => b < 256) bs).
+  { rewrite forallb_forall in H. apply Forall_forall. intros x Hx. apply N.ltb_lt. now apply H. }
+  destruct bs as [|b0 br]; [discriminate|].
+  assert (He : e = b64_enc_body (b0 :: br)) by (change (b64_enc (b0 :: br)) with (Some (b64_enc_body (b0 :: br))) in E; congruence).
+  subst e. clear E. rewrite (enc_body_shape _ HF).
+  assert (S : forallb b64_safe (map basis (sextets (b0 :: br)) ++ pad (b0 :: br)) = true).
+  { rewrite forallb_app. apply andb_true_iff. split.
+    - pose proof (sextets_lt _ HF) as HS. induction HS as [|x r Hx _ IH]; [reflexivity|]. cbn [map forallb].
+      rewrite IH, andb_true_r. exact (Bits.sweep1 _ 64 basis_safe_sweep x Hx).
+    - unfold pad. destruct (length (b0 :: br) mod 3)%nat as [|[|[|?]]]; reflexivity. }
+  unfold chars_ok. apply andb_true_iff. split.
+  - rewrite forallb_forall in S |- *. intros x Hx. specialize (S x Hx). unfold b64_safe in S. now apply andb_true_iff in S as [S _].
+  - apply orb_true_iff. right. unfold no_byte. rewrite forallb_forall in S |- *. intros x Hx. specialize (S x Hx).
+    unfold b64_safe in S. now apply andb_true_iff in S as [_ S].
+Qed.
+
+Lemma rewrite_not_type l cur s : tag_is_type cur = false -> syncml_type_rewrite l cur s = s.
+Proof. intros H. unfold syncml_type_rewrite. rewrite H, !andb_false_r. reflexivity. Qed.
 
 Definition seq_fuel (ch : list node) : nat := fold_right (fun x a => node_fuel x + a)%nat 0%nat ch.
 
@@ -464,21 +494,34 @@ Proof.
       eapply p_content_mono; [apply (Hk (nl_if o) (nl_if o) _ Rnl)|lia].
       cbn [fold_left push_item merge_items]. now rewrite push_text_app.
   - (* text *)
-    cbn [node_ok_g] in Hok. apply andb_true_iff in Hok as [Hok1 Hok2]. apply negb_true_iff in Hok2.
-    rewrite (text_tag_ext (mk_est 0 false false (e_cur_tag s)) s parent) in Hok2 by reflexivity.
+    cbn [node_ok_g] in Hok.
+    rewrite (text_tag_ext (mk_est 0 false false (e_cur_tag s)) s parent) in Hok by reflexivity.
     cbn [enc_node] in Henc. unfold parse_text in Henc. cbn [info_g]. unfold text_item.
-    destruct (text_policy o parent s t) as [c|] eqn:EP.
-    + unfold xml_encode_text in Henc. rewrite Hc, Hok2 in Henc. injection Henc as <- <-.
-      pose proof (text_policy_chars o parent s t c Hok1 EP) as Hch.
-      pose proof (chars_ok_rewrite l o (e_cur_tag s) c Hch) as Hch2.
-      pose proof (escape_run_ok o _ Hch2) as Hrun2.
-      split; [reflexivity|]. split; [exact (ro_bytes _ _ Hrun2)|]. rewrite Hok2, Hc. eexists. split; [reflexivity|].
+    destruct (tag_is_binary (text_tag s parent)) eqn:EB.
+    + (* content of a binary-flagged element: base64 *)
+      apply andb_true_iff in Hok as [Hok1 Hok2]. apply negb_true_iff in Hok2.
+      assert (EP : text_policy o parent s t = Some t) by (unfold text_policy; rewrite Hc, EB; reflexivity).
+      rewrite EP in *. unfold xml_encode_text in Henc. rewrite Hc, EB in Henc.
+      rewrite (rewrite_not_type l _ t Hok2) in *.
+      destruct (b64_enc t) as [e|] eqn:E64; [|discriminate]. injection Henc as <- <-.
+      pose proof (b64_chars_ok o t e Hok1 E64) as Hch.
+      pose proof (escape_run_ok o _ Hch) as Hrun2.
+      split; [reflexivity|]. split; [exact (ro_bytes _ _ Hrun2)|]. rewrite Hc. eexists. split; [reflexivity|].
       intros pre tpre acc tail f x Hrun Hk. cbn [node_fuel Nat.add].
       rewrite app_assoc. apply (Hk _ _ acc (run_ok_app _ _ _ _ Hrun Hrun2)).
       cbn [fold_left push_item]. apply push_text_app.
-    + injection Henc as <- <-. split; [exact Hc|]. split; [reflexivity|]. eexists. split; [reflexivity|].
-      intros pre tpre acc tail f x Hrun Hk. cbn [node_fuel Nat.add app].
-      apply (Hk pre tpre acc Hrun). reflexivity.
+    + destruct (text_policy o parent s t) as [c|] eqn:EP.
+      * unfold xml_encode_text in Henc. rewrite Hc, EB in Henc. injection Henc as <- <-.
+        pose proof (text_policy_chars o parent s t c Hok EP) as Hch.
+        pose proof (chars_ok_rewrite l o (e_cur_tag s) c Hch) as Hch2.
+        pose proof (escape_run_ok o _ Hch2) as Hrun2.
+        split; [reflexivity|]. split; [exact (ro_bytes _ _ Hrun2)|]. rewrite Hc. eexists. split; [reflexivity|].
+        intros pre tpre acc tail f x Hrun Hk. cbn [node_fuel Nat.add].
+        rewrite app_assoc. apply (Hk _ _ acc (run_ok_app _ _ _ _ Hrun Hrun2)).
+        cbn [fold_left push_item]. apply push_text_app.
+      * injection Henc as <- <-. split; [exact Hc|]. split; [reflexivity|]. eexists. split; [reflexivity|].
+        intros pre tpre acc tail f x Hrun Hk. cbn [node_fuel Nat.add app].
+        apply (Hk pre tpre acc Hrun). reflexivity.
   - (* CDATA node *)
     cbn [node_ok_g] in Hok. destruct ch as [|[| t | | |] [|c1 ch1]]; try discriminate.
     + (* empty section *)
